@@ -18,8 +18,8 @@ RULE = ("Generated circuits with 0-3 heralds (0-2 photons, via nested additions 
         "Non-trivial = (a herald carrying a photon or a loss element) and a post-selection that accepts and "
         "rejects at least one output of non-negligible probability; distinct = distinct case JSON.")
 ASSUMPTIONS = [
-    "probability tolerance n_full_states*1e-9 + 1e-9 (documented truncation); QuickSampler compared with "
-    "relative tolerance scaled by the accepted mass and only when that mass exceeds 1e-6",
+    "probability tolerance n_patterns*1e-9 + 1e-9 (documented truncation per pattern); QuickSampler compared with "
+    "tolerance (number of candidate outputs) x 2e-9 on the conditional probabilities whenever the accepted mass exceeds 1e-12",
     "QuickSampler with threshold detection only generated for heralds carrying <= 1 photon (the restriction "
     "Sampler itself enforces)",
     "error rate only asserted when the accepted total of every input exceeds 1e-9 (otherwise 0/0)",
@@ -85,6 +85,43 @@ def story_case(draw):
             "exp_perm": list(draw(st.permutations(range(len(inputs)))))}
 
 
+@st.composite
+def heavy_loss_case(draw):
+    """Dense interferometer followed by heavy loss on every mode: the no-loss branch has probability
+    1e-4 .. 1e-8, each individual output far less."""
+    n = draw(st.integers(3, 5))
+    ops = [["unitary", 0, "haar", n, draw(st.integers(0, 10 ** 6))]]
+    for m in range(n):
+        ops.append(["loss", m, draw(st.floats(0.9, 0.995))])
+    nph = draw(st.integers(2, 3))
+    return {"prog": {"n": n, "ops": ops}, "input": draw(gen.fock_state(n, nph)), "pc": draw(st.booleans())}
+
+
+def run_heavy_loss(case):
+    """QuickSampler = exact distribution conditioned on no lost photon, whatever the absolute scale."""
+    import lightworks as lw
+    from lightworks import emulator
+    from vlib.refmodel import lossy_marginal
+    c = call("build", build_real, case["prog"])
+    vin = list(case["input"])
+    nph = sum(vin)
+    ref = lossy_marginal(c.U, vin)
+    cond = {o: p for o, p in ref.items() if sum(o) == nph and (case["pc"] or max(o) <= 1)}
+    mass = sum(cond.values())
+    if mass < 1e-30:
+        return {"nontrivial": False, "labels": ["no-accepted-mass"]}
+    qs = emulator.QuickSampler(c, lw.State(vin), photon_counting=case["pc"])
+    d = call("QuickSampler.probability_distribution", lambda: qs.probability_distribution)
+    d = {tuple(k): v for k, v in d.items()}
+    tol = len(cond) * 1e-9 + 1e-9
+    for o in set(d) | set(cond):
+        q, r = d.get(o, 0.0), cond.get(o, 0.0) / mass
+        if not abs(q - r) <= tol:
+            raise Violation(f"QuickSampler P({list(o)}) = {q:.8g}, exact distribution conditioned on no lost photon "
+                            f"gives {r:.8g} (no-loss probability {mass:.3g})", key="quicksampler-conditional")
+    return {"nontrivial": True, "labels": [f"no-loss-mass~1e{int(math.floor(math.log10(mass)))}"]}
+
+
 def full_state(vis, heralds, n_modes):
     it = iter(vis)
     return tuple(heralds[m] if m in heralds else next(it) for m in range(n_modes))
@@ -113,8 +150,7 @@ def run_story(case):
         fin = list(full_state(vin, hin, n)) + [0] * nloss
         refs.append(marginal_distribution(U, n, fin))
     injected = nph + sum(hin.values())
-    n_full = math.comb(U.shape[0] + injected - 1, injected)
-    tol = n_full * 1e-9 + 1e-9
+    tol = max(len(r_) for r_ in refs) * 1e-9 + 1e-9          # one truncation allowance per pattern
 
     # ---- Sampler distribution per input (already tied to the reference by C04)
     samp = []
@@ -221,10 +257,10 @@ def run_story(case):
             n_cand = len(cond)
             qs = emulator.QuickSampler(c, lw.State(list(vin)), photon_counting=pc,
                                        post_select=postsel.to_real(ps))
-            if mass > 1e-6:
+            if mass > 1e-12:
                 d = call("QuickSampler.probability_distribution", lambda q=qs: q.probability_distribution)
                 d = {tuple(k): v for k, v in d.items()}
-                qtol = 2 * (n_cand * 1e-9) / mass + 1e-9 + tol / mass
+                qtol = 2 * n_cand * 1e-9 + 1e-9              # threshold is relative to the accepted mass
                 for o, r in cond.items():
                     q = d.get(o, 0.0)
                     if not abs(q - r / mass) <= qtol:
@@ -239,7 +275,7 @@ def run_story(case):
                     raise Violation(f"QuickSampler distribution sums to {tot}", key="quicksampler-normalisation")
                 labels.add("quicksampler-checked")
             else:
-                labels.add("quicksampler-mass<1e-6")
+                labels.add("quicksampler-mass<1e-12")
 
     # ---- Simulator vs Sampler (lossless)
     if not lossy:
@@ -274,4 +310,5 @@ def subs(tier):
     q = tier == "quick"
     return [Sub("story", run_story, strategy=story_case(), examples=120 if q else 1500),
             Sub("fully-heralded", run_story, strategy=fully_heralded_case(), examples=20 if q else 300),
+            Sub("heavy-loss-quick-sampler", run_heavy_loss, strategy=heavy_loss_case(), examples=25 if q else 400),
             Sub("gate-story", run_story, strategy=gate_story_case(), examples=40 if q else 500)]
